@@ -76,9 +76,72 @@ inline std::string op_macros() {
   Theo::ScanResult s = Theo::scan(src_S1(), "main"); Theo::MacroExtractionResult m = Theo::extract_macros(s.toks); Theo::MacroApplicationResult a = Theo::apply_macros(m.tokens, m.macros, 64);
   std::string o; for (auto &t : a.transformed_sequence) o += t.text + "@" + t.file + ":" + std::to_string(t.line) + " "; for (auto &e : a.errors) o += "E" + e.msg; return o;
 }
-static const int NOPS = 9;
-inline const char *op_name(int i) { static const char *n[] = {"compile(S1: loops+macro with temporaries+calls)", "compile(S2: three kinds of errors)", "compile(S3: includes+missing file)", "run VM on S1", "leave a half-run VM with breakpoints alive", "scan(S3)", "extract+apply macros(S1)", "compile(S1 with identical definitions at other lines/files)", "compile(S4: out-of-range numbers in every numeric position)"}; return n[i]; }
+// compilations whose main file is absent from the map, under the names other operations use for real files ("lib",
+// "a", "main"): whatever a failed lookup leaves behind would be keyed by these names
+inline std::string op_missing_main() {
+  std::string o = ser_result(Theo::compile(Files{}, "lib")) + "#" + ser_result(Theo::compile(Files{{"main", "x0 := 1\n"}}, "a")) + "#" + ser_result(Theo::compile(Files{{"lib", "x0 := 2\n"}}, "main"));
+  Theo::ScanResult s = Theo::scan(Files{}, "b"); o += "#" + std::to_string(s.toks.size()) + "/" + std::to_string(s.errors.size());
+  return o;
+}
+// a source whose only faults are jumps to labels that are not set (inside a program body, across bodies, at root level)
+inline Files src_S5() { return {{"main", "PROGRAM p IN a DO\n GOTO nolabel;\n x0 := a\nEND\nPROGRAM q IN a DO\n inq: x0 := a;\n IF a = 0 THEN GOTO inroot\nEND\ninroot: x1 := RUN p WITH 1 END;\nGOTO inq\n"}}; }
+// A corpus of small compilations that collide on every kind of name the compiler keys anything by (file names main/lib,
+// program name f, labels la/lb, macro pattern foo, positions): compiled one after the other in one process, each must give
+// exactly the result it gives when compiled first in a fresh process.
+struct Comp { Files files; std::string main; const char *what; };
+inline const std::vector<Comp> &corpus() {
+  static std::vector<Comp> C;
+  if (!C.empty()) return C;
+  auto M = [](const char *src, const char *what) { return Comp{{{"main", src}}, "main", what}; };
+  std::string F1 = "PROGRAM f IN a DO\n x0 := a\nEND\n";
+  C = {
+      M("x0 := 1\n", "one assignment"),
+      M("la: x0 := x0 + 1;\nIF x0 = 3 THEN GOTO lb;\nGOTO la;\nlb: x1 := 2\n", "labels la, lb"),
+      M("x0 := x0 + 1;\nIF x0 = 3 THEN GOTO lb;\nGOTO la;\nlb: x1 := 2\n", "la never set"),
+      M("la: x0 := x0 + 1;\nIF x0 = 3 THEN GOTO lb;\nGOTO la;\nx1 := 2\n", "lb never set"),
+      M("la: x0 := 1;\nla: x1 := 2\n", "la set twice"),
+      M("PROGRAM f IN a DO\n x0 := a\nEND\nx0 := RUN f WITH 2 END\n", "f(a)"),
+      M("PROGRAM f IN a, b DO\n x0 := b\nEND\nx0 := RUN f WITH 1, 2 END\n", "f(a,b)"),
+      M("x0 := RUN f WITH 2 END\n", "f undefined"),
+      M("PROGRAM f IN a DO\n x0 := a\nEND\nx0 := RUN f WITH 1, 2 END\n", "f called with a wrong argument count"),
+      M("PROGRAM f IN a DO\n x0 := a\nEND\nPROGRAM f IN a DO\n x0 := a + 5\nEND\nx0 := RUN f WITH 2 END\n", "f defined twice"),
+      M("PROGRAM f IN a, a DO\n x0 := a\nEND\nx0 := 1\n", "duplicate parameter"),
+      M("PROGRAM f IN a DO\n x0 := RUN f WITH a END\nEND\nx0 := 1\n", "f calls itself"),
+      M("PROGRAM f IN a DO\n la: x0 := a;\n GOTO lb\nEND\nlb: x0 := 1;\nGOTO la\n", "labels used across bodies"),
+      M("x0 := ;\n", "syntax error"),
+      M("x0 := 99999999999\n", "literal out of range"),
+      M("DEFINE foo <V> AS x1 := $0 ENDDEF\nfoo 3\n", "macro foo v1"),
+      M("DEFINE foo <V> AS x2 := $0 ENDDEF\nfoo 3\n", "macro foo v2 (same pattern, same position, other body)"),
+      M("DEFINE foo <ID> AS #0 := $0; $0 := #0 ENDDEF\nfoo x1;\nfoo x2\n", "macro with a temporary, used twice"),
+      M("DEFINE <P> AS foo ENDDEF\nx0 := 1\n", "pattern rejected"),
+      M("DEFINE foo AS foo ENDDEF\nfoo\n", "self-reproducing macro"),
+      M("DEFINE PRIO 99999999999 foo AS x1 := 1 ENDDEF\nfoo\n", "priority out of range"),
+      M("DEFINE PRIO 2 foo <V> AS x1 := $0 ENDDEF\nDEFINE PRIO 1 foo 3 AS x1 := 9 ENDDEF\nfoo 3\n", "two priorities"),
+      Comp{{{"main", "INCLUDE \"lib\"\nx0 := RUN f WITH 1 END\n"}, {"lib", "PROGRAM f IN a DO\n x0 := a + 1\nEND\n"}}, "main", "include lib v1"},
+      Comp{{{"main", "INCLUDE \"lib\"\nx0 := RUN f WITH 1 END\n"}, {"lib", "PROGRAM f IN a DO\n x0 := a + 2\nEND\n"}}, "main", "include lib v2 (same names, other content)"},
+      Comp{{{"main", "INCLUDE \"lib\"\nx0 := RUN f WITH 1 END\n"}}, "main", "lib missing"},
+      Comp{{{"main", "INCLUDE \"lib\"\nx0 := 1\n"}, {"lib", "INCLUDE \"main\"\nx1 := 2\n"}}, "main", "include cycle main-lib"},
+      M("INCLUDE \"main\"\nx0 := 1\n", "self include"),
+      Comp{{}, "main", "main absent"},
+      Comp{{}, "lib", "main absent, named lib"},
+      Comp{{{"lib", "INCLUDE \"main\"\nx0 := 1\n"}, {"main", "x1 := 2\n"}}, "lib", "roles of main and lib swapped"},
+      M("INCLUDE x0\n", "include without a file name"),
+      M("x0 := 1 ?\n", "unknown character"),
+      M("", "empty source"),
+      M("x0 := 3;\nWHILE x0 != 0 DO\n x0 := x0 - 1\nEND\n", "while loop"),
+      M("x0 := 2;\nLOOP x0 DO\n LOOP x0 DO\n  x1 := x1 + 1\n END\nEND\n", "loop nest (hidden counters)"),
+      Comp{src_S1(), "main", "S1"}, Comp{src_S1_shifted(), "main", "S1 shifted"}, Comp{src_S2(), "main", "S2"}, Comp{src_S3(), "main", "S3"}, Comp{src_S4(), "main", "S4"}, Comp{src_S5(), "main", "S5"},
+  };
+  return C;
+}
+inline std::string run_corpus(int i) {
+  const Comp &c = corpus()[i]; Files copy = c.files; Theo::CodegenResult r = Theo::compile(copy, c.main); std::string o = ser_result(r);
+  if (r.generated_correctly) { Theo::VM vm(r.code); long n = 0; while (!vm.isDone() && n++ < 20000) vm.executeSingle(); o += "|run:" + ser_vm(vm); }
+  return o;
+}
+static const int NOPS = 11;
+inline const char *op_name(int i) { static const char *n[] = {"compile(S1: loops+macro with temporaries+calls)", "compile(S2: three kinds of errors)", "compile(S3: includes+missing file)", "run VM on S1", "leave a half-run VM with breakpoints alive", "scan(S3)", "extract+apply macros(S1)", "compile(S1 with identical definitions at other lines/files)", "compile(S4: out-of-range numbers in every numeric position)", "compile/scan with an absent main file named like files of other operations", "compile(S5: jumps to labels that are never set)"}; return n[i]; }
 inline std::string run_op(int i, std::vector<Theo::VM *> *keep) {
-  switch (i) { case 0: return op_compile(src_S1()); case 1: return op_compile(src_S2()); case 2: return op_compile(src_S3()); case 3: return op_run_vm(); case 4: return op_debug_vm(keep); case 5: return op_scan(); case 6: return op_macros(); case 7: return op_compile(src_S1_shifted()); default: return op_compile(src_S4()); }
+  switch (i) { case 0: return op_compile(src_S1()); case 1: return op_compile(src_S2()); case 2: return op_compile(src_S3()); case 3: return op_run_vm(); case 4: return op_debug_vm(keep); case 5: return op_scan(); case 6: return op_macros(); case 7: return op_compile(src_S1_shifted()); case 8: return op_compile(src_S4()); case 9: return op_missing_main(); default: return op_compile(src_S5()); }
 }
 }  // namespace det
